@@ -903,6 +903,7 @@ package statedb
 //@ func newRevisionIndex
 //@   property C04 C07 C09
 //@   flag nosafety
+//@   ensures @allocates-only onlyFresh()
 //@   ensures @a-unique-index-on-a-tree-of-its-own fresh(unboxptr(result)) && ptrto(partIndex, unboxptr(result)).partIndexTxn.unique && ptrto(partIndex, unboxptr(result)).partIndexTxn.tx == nil
 //@ func newRevisionIndex$1
 //@   property C04 C07 C09
@@ -913,6 +914,7 @@ package statedb
 //@ func newGraveyardIndex
 //@   property C04 C07 C08
 //@   flag nosafety
+//@   ensures @allocates-only onlyFresh()
 //@   ensures @a-unique-index-on-a-tree-of-its-own fresh(unboxptr(result)) && ptrto(partIndex, unboxptr(result)).partIndexTxn.unique && ptrto(partIndex, unboxptr(result)).partIndexTxn.tx == nil
 //@ func newGraveyardIndex$1
 //@   property C04 C07 C08
@@ -923,6 +925,7 @@ package statedb
 //@ func Index.newTableIndex
 //@   property C04 C18
 //@   flag nosafety
+//@   ensures @allocates-only onlyFresh()
 //@   ensures @uniqueness-as-declared fresh(unboxptr(result)) && ptrto(partIndex, unboxptr(result)).partIndexTxn.unique == i.Unique && ptrto(partIndex, unboxptr(result)).partIndexTxn.tx == nil
 //@ func (*deleteTracker).getRevision
 //@   property C07 C08
